@@ -308,33 +308,35 @@ def streamdata_script(r, idx, fate_vec=None):
 
 def streamdata_ackfreq(r, idx):
     """Stream transfers while the acknowledgement rhythm is renegotiated all the time: both sides use
-    ACK_FREQUENCY with a requested delay that follows the RTT (a configured maximum above it), the RTT
-    moves (jitter, delayed datagrams) so that requests with new sequence numbers keep being sent, and
-    datagrams overtake each other - stale requests arrive in packets that also carry stream data."""
+    ACK_FREQUENCY with a requested delay that follows the RTT (a configured maximum above it); long
+    window-limited transfers run while the path's latency jumps up and down, so that requests with new
+    sequence numbers keep being sent and - when the latency drops - overtake older ones that share
+    their packets with stream data."""
     cfg = base_cfg(r, server={"idle_ms": 30000}, client={"idle_ms": 30000})
     for side in ("server", "client"):
         cfg[side]["ack_freq"] = True
         cfg[side]["ack_freq_threshold"] = r.choice([0, 1, 2, 5])
-        cfg[side]["ack_freq_max_delay_ms"] = r.choice([60, 200, 200])
+        cfg[side]["ack_freq_max_delay_ms"] = r.choice([200, 400])
+        cfg[side]["send_window"] = r.choice([3000, 6000, 12000])
         if r.random() < 0.3:
             cfg[side]["cc"] = r.choice(["newreno", "bbr", "cubic"])
     cfg["latency_us"] = r.choice([15000, 30000, 60000])
-    cfg["jitter_us"] = r.choice([10000, 30000, 60000])
-    cfg["fates_c2s"] = fates(r, 30, 0.4)
-    cfg["fates_s2c"] = fates(r, 30, 0.4)
-    if r.random() < 0.4:
-        cfg["loss_pct"] = r.choice([2, 10])
+    if r.random() < 0.5:
+        cfg["jitter_us"] = r.choice([5000, 20000])
+    cfg["fates_c2s"] = fates(r, 20, 0.2)
+    cfg["fates_s2c"] = fates(r, 20, 0.2)
     steps = [{"do": "connect", "n": 1}, {"do": "run_until", "what": "connected", "max_us": 20000000}]
-    # several rounds of small writes spread over time: STREAM frames share packets with whatever
-    # control frames are due
-    for k in range(r.choice([2, 3, 5])):
-        w = workload(r, n=r.choice([0, 1]))
+    for n in (1, 0):
+        w = workload(r, n=n, big=True)
         for st in w["streams"]:
-            st["size"] = r.choice([1, 100, 1200, 5000])
-            st["chunk"] = r.choice([100, 1200, 5000])
+            st["size"] = r.choice([20000, 70000, 150000])
+            st["chunk"] = r.choice([700, 1200, 5000])
+        w["read_max"] = 1 << 20
         steps.append(w)
-        steps.append({"do": "run", "us": r.choice([20000, 60000, 150000, 400000])})
-    steps.append({"do": "run_until", "what": "apps", "max_us": 60000000})
+    for k in range(r.choice([4, 6, 9])):
+        steps.append({"do": "run", "us": r.choice([100000, 250000, 500000])})
+        steps.append({"do": "set", "key": "latency_us", "v": r.choice([8000, 20000, 50000, 110000, 180000])})
+    steps.append({"do": "run_until", "what": "apps", "max_us": 120000000})
     steps.append({"do": "run", "us": 300000})
     return {"cfg": cfg, "steps": steps, "tag": {"family": "streamdata-ackfreq", "idx": idx, "fates": False}}
 
